@@ -109,12 +109,12 @@ type AuthReq struct {
 	AMR      []string
 }
 
-func (a *AuthReq) GetID() string         { return a.ID }
-func (a *AuthReq) GetACR() string        { return a.ACR }
-func (a *AuthReq) GetAMR() []string      { return a.AMR }
-func (a *AuthReq) GetAudience() []string { return append([]string{a.ClientID}, a.ExtraAudience...) }
+func (a *AuthReq) GetID() string          { return a.ID }
+func (a *AuthReq) GetACR() string         { return a.ACR }
+func (a *AuthReq) GetAMR() []string       { return a.AMR }
+func (a *AuthReq) GetAudience() []string  { return append([]string{a.ClientID}, a.ExtraAudience...) }
 func (a *AuthReq) GetAuthTime() time.Time { return a.AuthTime }
-func (a *AuthReq) GetClientID() string   { return a.ClientID }
+func (a *AuthReq) GetClientID() string    { return a.ClientID }
 func (a *AuthReq) GetCodeChallenge() *oidc.CodeChallenge {
 	return a.Challenge
 }
@@ -167,12 +167,12 @@ type RefreshReq struct {
 	scopes []string
 }
 
-func (r *RefreshReq) GetAMR() []string         { return r.rt.AMR }
-func (r *RefreshReq) GetAudience() []string    { return r.rt.Audience }
-func (r *RefreshReq) GetAuthTime() time.Time   { return r.rt.AuthTime }
-func (r *RefreshReq) GetClientID() string      { return r.rt.ClientID }
-func (r *RefreshReq) GetScopes() []string      { return r.scopes }
-func (r *RefreshReq) GetSubject() string       { return r.rt.Subject }
+func (r *RefreshReq) GetAMR() []string            { return r.rt.AMR }
+func (r *RefreshReq) GetAudience() []string       { return r.rt.Audience }
+func (r *RefreshReq) GetAuthTime() time.Time      { return r.rt.AuthTime }
+func (r *RefreshReq) GetClientID() string         { return r.rt.ClientID }
+func (r *RefreshReq) GetScopes() []string         { return r.scopes }
+func (r *RefreshReq) GetSubject() string          { return r.rt.Subject }
 func (r *RefreshReq) SetCurrentScopes(s []string) { r.scopes = s }
 
 // CCReq is the TokenRequest of the client_credentials grant.
@@ -200,9 +200,11 @@ type SignKeySpec struct {
 
 type signingKey struct{ s SignKeySpec }
 
-func (k signingKey) SignatureAlgorithm() jose.SignatureAlgorithm { return jose.SignatureAlgorithm(k.s.Alg) }
-func (k signingKey) Key() any                                    { return Key(k.s.KeyName).Priv }
-func (k signingKey) ID() string                                  { return k.s.KID }
+func (k signingKey) SignatureAlgorithm() jose.SignatureAlgorithm {
+	return jose.SignatureAlgorithm(k.s.Alg)
+}
+func (k signingKey) Key() any   { return Key(k.s.KeyName).Priv }
+func (k signingKey) ID() string { return k.s.KID }
 
 // PubKeySpec is a published key.
 type PubKeySpec struct {
@@ -214,10 +216,10 @@ type PubKeySpec struct {
 
 type pubKey struct{ s PubKeySpec }
 
-func (k pubKey) ID() string                          { return k.s.KID }
-func (k pubKey) Algorithm() jose.SignatureAlgorithm  { return jose.SignatureAlgorithm(k.s.Alg) }
-func (k pubKey) Use() string                         { return k.s.Use }
-func (k pubKey) Key() any                            { return Key(k.s.KeyName).Pub }
+func (k pubKey) ID() string                         { return k.s.KID }
+func (k pubKey) Algorithm() jose.SignatureAlgorithm { return jose.SignatureAlgorithm(k.s.Alg) }
+func (k pubKey) Use() string                        { return k.s.Use }
+func (k pubKey) Key() any                           { return Key(k.s.KeyName).Pub }
 
 // TEPolicy is the storage's token-exchange policy.
 type TEPolicy struct {
@@ -243,8 +245,8 @@ type StorePolicy struct {
 	PromptNoneLoginError bool     `json:"prompt_none_error,omitempty"`
 	// RefreshIDs: refresh records get an id ("rid-N") that differs from the token string; GetRefreshTokenInfo returns that id
 	// and RevokeToken finds refresh records by it only (as in storages whose refresh ids differ from the token value).
-	RefreshIDs bool `json:"refresh_ids,omitempty"`
-	ACR                  string   `json:"acr,omitempty"`
+	RefreshIDs bool   `json:"refresh_ids,omitempty"`
+	ACR        string `json:"acr,omitempty"`
 	// ErrStyle: how the storage reports its own refusals (see Store.refuse): "" plain error, "oidc", "wrapped", "server"
 	ErrStyle string `json:"err_style,omitempty"`
 }
